@@ -163,7 +163,7 @@ prop("C02", level="exploration",
      stages=[
          dict(pkg="fullstack", test="TestC02Pinned", sub="pinned", race=True, cases=dict(quick=3, thorough=3), batch=1, timeout=1200),
          dict(pkg="fullstack", test="TestC02", sub="random", race=True, vary_gomaxprocs=True,
-              cases=dict(quick=600, thorough=3400)  # case 3492 of this stream: a generated nested-recursion selector makes go-ipld-prime's own selector expansion (replaceRecursiveEdge) exhaust memory inside the reference traversal; the stream stops before it, timeout=3600),
+              cases=dict(quick=600, thorough=3400), timeout=3600),  # case 3492 of this stream: a nested-recursion selector makes go-ipld-prime's selector expansion exhaust memory inside the reference traversal; the stream stops before it
      ],
      technique="runtime monitoring: differential oracle - real requestor and responder instances on an instrumented fabric/store versus a two-store reference traversal (go-ipld-prime only); exact comparison of delivered nodes, missing-block errors and stored blocks; Go race detector",
      level_text=("Generated DAG x selector x store-split cases are executed end to end by two unmodified GraphSync instances (messages cross the "
